@@ -59,6 +59,15 @@ var uniSeg = universe{
 	class:    "segprefix",
 }
 
+// uniNarrow trades width for depth: two keys under one prefix, a smaller operation alphabet, so
+// that histories of 7-8 operations (delete in one version, re-set later, rollback in between;
+// a pending parent write shadowed by a nested delete that is flushed) are enumerated in full.
+var uniNarrow = universe{
+	name:     "narrow",
+	keys:     [][]byte{k("a", "b"), k("a", "c")},
+	prefixes: [][]byte{nil, k("a"), k("a", "b")},
+}
+
 var vals = [][]byte{[]byte("x"), []byte("yy")}
 
 // ---------------------------------------------------------------------------------------
@@ -329,6 +338,10 @@ func alphabet(u *universe, thorough bool) []op {
 	}
 	for i := range u.keys {
 		a = append(a, op{kind: opDel, key: i})
+	}
+	if u.name == "narrow" {
+		return append(a, op{kind: opCommit}, op{kind: opNest}, op{kind: opFlush}, op{kind: opDiscard},
+			op{kind: opRollback, arg: 1}, op{kind: opRollback, arg: 2}, op{kind: opView, arg: 1})
 	}
 	a = append(a, op{kind: opCommit}, op{kind: opNest}, op{kind: opFlush}, op{kind: opDiscard},
 		op{kind: opReset}, op{kind: opCopy}, op{kind: opCopySet, key: 0, val: 1},
@@ -767,6 +780,9 @@ func uniByName(n string) *universe {
 	if n == "segprefix" {
 		return &uniSeg
 	}
+	if n == "narrow" {
+		return &uniNarrow
+	}
 	return &uniPlain
 }
 
@@ -791,16 +807,16 @@ func main() {
 		doReplay(r)
 		return
 	}
-	depth := map[string]int{"plain": 4, "segprefix": 3}
+	depth := map[string]int{"plain": 4, "segprefix": 3, "narrow": 7}
 	if !r.Quick() {
-		depth = map[string]int{"plain": 6, "segprefix": 4}
+		depth = map[string]int{"plain": 6, "segprefix": 4, "narrow": 9}
 	}
 	cov := map[string]any{}
 	var totalStates int
 	var totalTrans int64
 	var perUni []map[string]any
 	pool := mc.NewProcPool(0)
-	for _, u := range []*universe{&uniPlain, &uniSeg} {
+	for _, u := range []*universe{&uniNarrow, &uniPlain, &uniSeg} {
 		alpha := alphabet(u, !r.Quick())
 		st := mc.ReplayBFS(mc.BFSConfig{
 			Tag: u.name + "|" + r.Tier, NumOps: len(alpha), MaxDepth: depth[u.name], Pool: pool,
